@@ -1,4 +1,5 @@
 import GModel.Jumps
+import GProofs.C03
 import Mathlib.Data.Multiset.Basic
 import Mathlib.Order.Basic
 import Mathlib.Algebra.Order.Monoid.Unbundled.Basic
@@ -160,6 +161,14 @@ theorem default_jumps_eq_spec (mr : Int) (s : List Int) :
   intro j hj
   have := spec_endpoints s none 0 j (by intro l tl h; cases h) hj
   simpa using this.2.2
+
+/-- **C04 (default mode, end to end)**: from the site history through the event table the code
+builds (C03) and the state machine to `Jumps.data`: exactly the specification. -/
+theorem jumpsOfHistory_default (mr : Int) (s : List Int) :
+    jumpsOfHistory mr s s = defaultJumps s := by
+  unfold jumpsOfHistory
+  rw [G.C03.eventsAlgo_eq_spec s s rfl, ← evs_eq_eventsSpec]
+  exact default_jumps_eq_spec mr s
 
 /-- leaving a site and returning to it is not a jump; time at no site is ignored -/
 example : defaultJumps [0, 0, -1, 0, -1, 1, 1, -1, 1, 2] = [⟨0, 1, 3, 5⟩, ⟨1, 2, 8, 9⟩] := by decide
